@@ -201,7 +201,7 @@ func (n *Node) Copy() *Node {
 		Copyright:          n.Copyright,
 		Hashes:             maps.Clone(n.Hashes),
 		SourceInfo:         n.SourceInfo,
-		PrimaryPurpose:     n.PrimaryPurpose,
+		PrimaryPurpose:     slices.Clone(n.PrimaryPurpose),
 		Comment:            n.Comment,
 		Summary:            n.Summary,
 		Description:        n.Description,
